@@ -3,6 +3,7 @@
 TLC: IwpExact.tla (Taylor/Pascal transition, Hilbert-type process noise; semigroup, Chapman-Kolmogorov,
 linearity, integral definition) and ExpGramExact.tla (nilpotent drifts: finite sums for expm and the Gramian;
 Lyapunov identity, semigroup, Chapman-Kolmogorov), evaluated exactly on every instance.
+OuExact.tla (integrated OU with scalar rates: spectral projector + nilpotent part, exact up to scalar exponential integrals),
 MaternExact.tla (drift = companion matrix of (s+z)^D over all D = given + diffuse coefficients; F = N - zI with N nilpotent,
 so transition and Gramian are exact rational matrices times two scalar transcendental factors).
 bind: Wiener priors of the three factorisations, dense exponential / integrated-OU / Matern priors (with and without
@@ -96,9 +97,36 @@ def run(tier: str, seed: int) -> int:
         rep.sample({"family": "matern", **{k: str(v) for k, v in inst.items()}}, cap=10)
         for op, detail in bad:
             rep.violation(f"impl:matern:{op}", f"Matern prior: {op} {detail}", {"instance": {k: str(v) for k, v in inst.items()}})
+    # ---- integrated Ornstein-Uhlenbeck priors with scalar rates (one exact instance per dimension: each has its own rate)
+    n_ou = 8 if tier == "quick" else 60
+    ous = [matern.ou_instance(rng, n=n) for n in (2, 3, 4)] + [matern.ou_instance(rng) for _ in range(n_ou - 3)]
+    flat, owner = [], []
+    for k, inst in enumerate(ous):
+        for t in matern.ou_tla(inst):
+            flat.append(t)
+            owner.append(k)
+    res, dropped, st, gen, fail = exact.eval_instances("OuExact", flat, invariants=["CheckAndPrint"], batch=8)
+    rep.states += st
+    rep.transitions += gen
+    ndrop += len(dropped)
+    if fail is not None:
+        rep.violation(f"spec:OuExact:{fail[0].violated}", "OuExact law violated", {"tlc_tail": fail[0].stdout[-3000:]})
+    for k, inst in enumerate(ous):
+        js = [j for j, o in enumerate(owner) if o == k]
+        if not all(j in res for j in js):
+            continue
+        try:
+            bad = matern.ou_check(inst, [res[j] for j in js])
+        except Exception as e:  # raised inside the library on a legal configuration
+            bad = [("exception", f"{type(e).__name__}: {str(e)[:200]}")]
+        rep.traces += 1
+        rep.add_case(("ou", k))
+        rep.sample({"family": "integrated-ou", **{x: str(v) for x, v in inst.items()}}, cap=12)
+        for op, detail in bad:
+            rep.violation(f"impl:ou:{op}", f"integrated OU prior: {op} {detail}", {"instance": {x: str(v) for x, v in inst.items()}})
     rep.extra["instances_dropped_for_32bit_overflow"] = ndrop
     rep.assumptions = [
-        "general drift matrices with non-zero spectrum (OU with a non-nilpotent rate matrix) have transcendental transitions and are not modelled; nilpotent drifts exercise the same code path (scaling, Pade, Legendre, doubling); the Matern drift is a scalar shift of a nilpotent matrix and is modelled exactly up to two scalar factors (exp, regularised incomplete gamma from scipy)",
+        "general drift matrices with non-zero spectrum (OU with a non-diagonal, non-nilpotent rate matrix) have transcendental transitions and are not modelled; scalar / per-dimension OU rates are (OuExact.tla); nilpotent drifts exercise the same code path (scaling, Pade, Legendre, doubling); the Matern drift is a scalar shift of a nilpotent matrix and is modelled exactly up to two scalar factors (exp, regularised incomplete gamma from scipy)",
         "float64 compared at 1e-9 (priors) / 1e-11 (gram_util), float32 at 2e-4",
     ]
     return rep.finish()
